@@ -56,6 +56,14 @@ would-block semantics, schedule-hash mismatch as exit 2, child operation budget)
 corrections every listed check exits 0 on every refactoring. The patches are kept under
 /verif/neutral/ as regression material for the checks themselves.
 
+The whole set was run again after wave 9 (hour 18), against every generator, seam and oracle
+added since (quick tier of the property's own check and of one neighbouring check, in a scratch
+worktree of /repo HEAD per refactoring): 58 of the 64 patches still apply to HEAD (six touch
+lines that a later `fix:` commit rewrote); 54 of them are silent on every check run, the three
+that were flagged before are flagged again for the same reasons (they are not neutral for the
+property that reports them, see their rows), and the one that cannot be simulated ends with
+exit 2 as before. No new false alarm.
+
 | refactoring | property | what changes | quick checks run | result |
 |---|---|---|---|---|
 """ + "\n".join(rows) + "\n"
